@@ -103,3 +103,12 @@ theories/Verdict/ICacheProofs.vos theories/Verdict/ICacheProofs.vok theories/Ver
 theories/Properties_C01.vo theories/Properties_C01.glob theories/Properties_C01.v.beautified theories/Properties_C01.required_vo: theories/Properties_C01.v theories/Verdict/Verdict.vo theories/Verdict/VerdictProofs.vo theories/Verdict/ICache.vo theories/Verdict/ICacheProofs.vo
 theories/Properties_C01.vio: theories/Properties_C01.v theories/Verdict/Verdict.vio theories/Verdict/VerdictProofs.vio theories/Verdict/ICache.vio theories/Verdict/ICacheProofs.vio
 theories/Properties_C01.vos theories/Properties_C01.vok theories/Properties_C01.required_vos: theories/Properties_C01.v theories/Verdict/Verdict.vos theories/Verdict/VerdictProofs.vos theories/Verdict/ICache.vos theories/Verdict/ICacheProofs.vos
+theories/Rehash/Pack.vo theories/Rehash/Pack.glob theories/Rehash/Pack.v.beautified theories/Rehash/Pack.required_vo: theories/Rehash/Pack.v 
+theories/Rehash/Pack.vio: theories/Rehash/Pack.v 
+theories/Rehash/Pack.vos theories/Rehash/Pack.vok theories/Rehash/Pack.required_vos: theories/Rehash/Pack.v 
+theories/Rehash/PackProofs.vo theories/Rehash/PackProofs.glob theories/Rehash/PackProofs.v.beautified theories/Rehash/PackProofs.required_vo: theories/Rehash/PackProofs.v theories/Rehash/Pack.vo
+theories/Rehash/PackProofs.vio: theories/Rehash/PackProofs.v theories/Rehash/Pack.vio
+theories/Rehash/PackProofs.vos theories/Rehash/PackProofs.vok theories/Rehash/PackProofs.required_vos: theories/Rehash/PackProofs.v theories/Rehash/Pack.vos
+theories/Properties_C05.vo theories/Properties_C05.glob theories/Properties_C05.v.beautified theories/Properties_C05.required_vo: theories/Properties_C05.v theories/Rehash/Pack.vo theories/Rehash/PackProofs.vo
+theories/Properties_C05.vio: theories/Properties_C05.v theories/Rehash/Pack.vio theories/Rehash/PackProofs.vio
+theories/Properties_C05.vos theories/Properties_C05.vok theories/Properties_C05.required_vos: theories/Properties_C05.v theories/Rehash/Pack.vos theories/Rehash/PackProofs.vos
